@@ -53,6 +53,7 @@ type c05Case struct {
 	GraceMs   int64   `json:"grace_ms"`   // 0: production constant through RelayTCPContextWithRecords
 	Client    c05Side `json:"client"`     // what the client sends (read side of L)
 	Server    c05Side `json:"server"`     // what the upstream sends (read side of R)
+	GateAfter int     `json:"gate_after"` // real sockets: the client sends this many chunks, the rest only after the prologue returned; the relay starts when they are pending in the socket (TIOCINQ > 0)
 	WaitScale int64   `json:"wait_scale"` // multiplies every real-time patience of the harness (retries under load)
 	HorizonMs int64   `json:"horizon_ms"` // stop when virtual time is stuck (everything blocked for ever)
 
@@ -725,10 +726,14 @@ func c05RunTCP(cs *c05Case) (res c05Result) {
 	if cs.Port == 53 {
 		res.DnsParse, res.DnsFrame = c05DnsOracle(clientAll)
 	}
-	feed := func(c *net.TCPConn, side c05Side) {
+	gateCh := make(chan struct{})
+	feed := func(c *net.TCPConn, side c05Side, gateAfter int) {
 		in, _ := c05Decode(side)
 		last := int64(0)
-		for _, ch := range in {
+		for i, ch := range in {
+			if gateAfter > 0 && i == gateAfter {
+				<-gateCh
+			}
 			if d := ch.at - last; d > 0 {
 				if d > 30 {
 					d = 30
@@ -739,6 +744,9 @@ func c05RunTCP(cs *c05Case) (res c05Result) {
 			if _, err := c.Write(ch.data); err != nil {
 				return
 			}
+		}
+		if gateAfter > 0 && len(in) <= gateAfter {
+			<-gateCh
 		}
 		if side.EofAt >= 0 {
 			if d := side.EofAt - last; d > 0 {
@@ -772,8 +780,8 @@ func c05RunTCP(cs *c05Case) (res c05Result) {
 	wg.Add(2)
 	go sink(upstream, &up, &upEOF)
 	go sink(client, &down, &downEOF)
-	go feed(client, cs.Client)
-	go feed(upstream, cs.Server)
+	go feed(client, cs.Client, cs.GateAfter)
+	go feed(upstream, cs.Server, 0)
 
 	cp := c05ControlPlane(cs)
 	rr := &bpfRoutingResult{Outbound: cs.Outbound}
@@ -781,10 +789,38 @@ func c05RunTCP(cs *c05Case) (res c05Result) {
 	dst := netip.AddrPortFrom(netip.MustParseAddr("93.184.216.34"), cs.Port)
 	ctx, cancel := context.WithTimeout(context.Background(), 45*time.Second*c05Scale(cs))
 	defer cancel()
-	relay, domain, reached, cleanups, perr := cp.verifC05Prologue(ctx, L, src, dst, rr)
+	var (
+		relay    netproxy.Conn
+		domain   string
+		reached  bool
+		cleanups []func()
+		perr     error
+	)
+	func() {
+		defer func() {
+			if r := recover(); r != nil {
+				res.Panic = fmt.Sprint(r)
+			}
+		}()
+		relay, domain, reached, cleanups, perr = cp.verifC05Prologue(ctx, L, src, dst, rr)
+	}()
+	close(gateCh)
+	if cs.GateAfter > 0 && res.Panic == "" {
+		// the connection is "dialing": wait until the client's next segment sits in the socket buffer
+		nIn, _ := c05Decode(cs.Client)
+		if len(nIn) > cs.GateAfter {
+			deadline := time.Now().Add(5 * time.Second * c05Scale(cs))
+			for time.Now().Before(deadline) {
+				if p, err := tcpConnHasPendingReadData(L); err != nil || p {
+					break
+				}
+				time.Sleep(time.Millisecond)
+			}
+		}
+	}
 	res.Domain = domain
 	res.PrologueErr = c05ErrClass(perr)
-	res.HandledDNS = !reached && perr == nil
+	res.HandledDNS = !reached && perr == nil && res.Panic == ""
 	res.RelayErr = "norelay"
 	if reached {
 		res.Stack = c05Stack(relay)
